@@ -276,6 +276,21 @@ class World:
             slots.extend(getattr(cls, '__slots__', ()))
         for name in slots:
             if name.startswith('_cached'):
+                # the identifier caches are attributes too: planting or deleting one from outside must be refused
+                # (when a cache is already populated its value is kept for the restore check below)
+                had_c = hasattr(o, name)
+                old_c = getattr(o, name, None)
+                for op in ('set', 'del'):
+                    try:
+                        if op == 'set':
+                            setattr(o, name, old_c if had_c else b'planted')
+                        else:
+                            delattr(o, name)
+                    except AttributeError:
+                        continue
+                    except Exception as e:  # noqa
+                        raise Viol('%s: %sattr(%s) raised %s instead of AttributeError' % (what, op, name, type(e).__name__), 'AttributeError', str(e))
+                    raise Viol('%s: cache attribute %s of an immutable %s can be %s from outside' % (what, name, type(o).__name__, 'assigned' if op == 'set' else 'deleted'), 'AttributeError', 'no error')
                 continue
             had = hasattr(o, name)
             old = getattr(o, name, None)
@@ -394,6 +409,57 @@ class Deep(Family):
         return 'ok', True
 
 
+class DefaultConstructed(Family):
+    """objects made by the default constructors are values of their own: editing one (field assignment, append to its
+    input/output lists, editing its default outpoint) never changes another default-constructed object, earlier or later"""
+    name = 'default_constructed_objects'
+    engine = 'E2'
+    nontrivial_rule = 'every case (construct . construct . edit one . observe all . construct again)'
+
+    def cases(self, shard, tier):
+        for cls in ('CMutableTransaction', 'CMutableTxIn', 'CMutableTxOut', 'CMutableOutPoint', 'CTransaction', 'CTxIn', 'CTxOut', 'COutPoint', 'CBlock', 'CTxWitness', 'CScriptWitness'):
+            for edit in ('append_vin', 'append_vout', 'set_field', 'prevout_field', 'none'):
+                yield (cls, edit)
+
+    def check(self, case):
+        import bitcoin.core as BC
+        from bitcoin.core.script import CScript, CScriptWitness
+        clsname, edit = case
+        cls = CScriptWitness if clsname == 'CScriptWitness' else getattr(BC, clsname)
+        a = cls()
+        base = a.serialize()
+        b = cls()
+        if b.serialize() != base:
+            raise Viol('two default-constructed %s objects differ' % clsname, base, b.serialize())
+        did = False
+        try:
+            if edit == 'append_vin' and clsname == 'CMutableTransaction':
+                a.vin.append(BC.CMutableTxIn())
+                did = True
+            elif edit == 'append_vout' and clsname == 'CMutableTransaction':
+                a.vout.append(BC.CMutableTxOut(5, CScript(b'\x51')))
+                did = True
+            elif edit == 'set_field' and clsname.startswith('CMutable'):
+                name = {'CMutableTransaction': 'nLockTime', 'CMutableTxIn': 'nSequence', 'CMutableTxOut': 'nValue', 'CMutableOutPoint': 'n'}[clsname]
+                setattr(a, name, 7)
+                did = True
+            elif edit == 'prevout_field' and clsname == 'CMutableTxIn':
+                a.prevout.n = 9
+                a.prevout.hash = b'\x09' * 32
+                did = True
+        except AttributeError:
+            pass
+        if did and a.serialize() == base:
+            raise Viol('editing a default-constructed %s (%s) did not change it' % (clsname, edit), None, None)
+        c = cls()
+        for name, o in (('the other object created before the edit', b), ('an object created after the edit', c)):
+            if o.serialize() != base:
+                raise Viol('%s: editing one default-constructed %s (%s) changed %s' % (clsname, clsname, edit, name), base.hex(), o.serialize().hex())
+            if o.GetHash() != W.sha256d(base if clsname != 'CBlock' else base[:80]) or hash(o) != hash(base):
+                raise Viol('%s: identifiers of %s are wrong' % (clsname, name), None, None)
+        return 'ok', did
+
+
 def selftest(run):
     # the reference world alone: replaying a history twice gives the same models; deep copies are independent
     h = [('copy', 0, 'from_tx'), ('edit', 0, 'vout0.nValue'), ('copy', 0, 'mfrom_tx'), ('edit', 2, 'vin0.prevout.n')]
@@ -406,4 +472,4 @@ def selftest(run):
 
 
 def families(tier):
-    return [Histories(), Deep()]
+    return [Histories(), Deep(), DefaultConstructed()]
